@@ -247,7 +247,12 @@ func ConnectAndAuthenticateWithConfig(ctx context.Context, config *ClientConfig)
 
 		// Perform authentication handshake
 		if config.Security != nil {
-			auth := security.NewAuthenticator(config.Security, client.stream)
+			// The handshake mutates its config per-connection (NewAuthenticator
+			// stores this connection's ephemeral ECDH public key in it), so give
+			// each connection a private shallow copy, as server.ServeConn does.
+			// Callers may share one SecurityConfig across concurrent connections.
+			connSecurity := *config.Security
+			auth := security.NewAuthenticator(&connSecurity, client.stream)
 			negotiation, err := auth.ClientHandshake(ctx)
 
 			// Check if this is a session resumption error
